@@ -121,6 +121,12 @@ func (e *Engine) invoke(th *Thread, callee Value, args []Value, dst int, isDefer
 			return
 		}
 	}
+	if len(fn.Blocks) == 0 && fn.Pkg != nil {
+		// assembly kernels with a pure-Go twin (math/big: addVV -> addVV_g, ...)
+		if g := fn.Pkg.Func(fn.Name() + "_g"); g != nil && len(g.Blocks) > 0 {
+			fn = g
+		}
+	}
 	if len(fn.Blocks) == 0 {
 		e.unsupported("function without body: " + name)
 	}
